@@ -282,7 +282,30 @@ func (tp *ACLTemplatedPolicy) aclTemplatedPolicyRules(entMeta *acl.EnterpriseMet
 // compares values of template variables to ensure no duplicates
 func (tps ACLTemplatedPolicies) Deduplicate() ACLTemplatedPolicies {
 	list := make(map[string][]ACLTemplatedPolicyVariables)
+	// position in out of the instance kept for a template (and its variables)
+	kept := make(map[string][]int)
 	var out ACLTemplatedPolicies
+
+	// mergeScope widens the datacenter scope of the kept instance at out[i]
+	// by the scope of a duplicate: a templated policy without datacenters is
+	// valid in every datacenter and must not be narrowed by a scoped
+	// duplicate (same rule as ACLServiceIdentities.Deduplicate).
+	mergeScope := func(i int, dup *ACLTemplatedPolicy) {
+		if len(out[i].Datacenters) == 0 {
+			return
+		}
+		merged := out[i].Clone()
+		if len(dup.Datacenters) == 0 {
+			merged.Datacenters = nil
+		} else {
+			dcs := stringslice.CloneStringSlice(dup.Datacenters)
+			slices.Sort(dcs)
+			own := stringslice.CloneStringSlice(merged.Datacenters)
+			slices.Sort(own)
+			merged.Datacenters = stringslice.MergeSorted(dcs, own)
+		}
+		out[i] = merged
+	}
 
 	for _, tp := range tps {
 		// checks if template name already in the unique list
@@ -295,14 +318,20 @@ func (tps ACLTemplatedPolicies) Deduplicate() ACLTemplatedPolicies {
 		// if schema is empty, template does not require variables
 		if templateSchema == "" {
 			if !found {
+				kept[tp.TemplateName] = append(kept[tp.TemplateName], len(out))
 				out = append(out, tp)
+			} else if len(kept[tp.TemplateName]) > 0 {
+				mergeScope(kept[tp.TemplateName][0], tp)
 			}
 			continue
 		}
 
-		if !slices.Contains(list[tp.TemplateName], *tp.TemplateVariables) {
+		if idx := slices.Index(list[tp.TemplateName], *tp.TemplateVariables); idx < 0 {
 			list[tp.TemplateName] = append(list[tp.TemplateName], *tp.TemplateVariables)
+			kept[tp.TemplateName] = append(kept[tp.TemplateName], len(out))
 			out = append(out, tp)
+		} else {
+			mergeScope(kept[tp.TemplateName][idx], tp)
 		}
 	}
 
